@@ -394,3 +394,63 @@ func tableRec(r *core.Run) {
 	r.AddStates(int64(len(bodies) * len(caps)))
 	r.Sample(kase{"T-rec", "(defun build (n acc) (if (= n 0) acc (build (- n 1) (cons (lambda () n) acc)))) (map 'list (lambda (f) (funcall f)) (build 3 '()))"})
 }
+
+// ---------------------------------------------------------------------------
+// T-reenter: a form that is RE-ENTERED while an earlier evaluation of the same source form is still in progress.  The
+// recursive call sits in a part of the form that is evaluated before the form uses something it computed or was given
+// earlier (the threaded value, an earlier binding, an earlier argument, the loop variable): each activation works on
+// its own copy of whatever the operator builds from the form.
+
+func tableReenter(r *core.Run) {
+	const R = "(f (- n 1))"
+	forms := []struct{ id, src string }{
+		{"thread-last/2", "(thread-last n (+ " + R + "))"},
+		{"thread-last/3", "(thread-last n (list " + R + " 'x))"},
+		{"thread-last/4", "(thread-last n (list " + R + " 'x 'y))"},
+		{"thread-last/two-steps", "(thread-last n (list " + R + " 'x) (cons 'h))"},
+		{"thread-last/later-step", "(thread-last n (list 'x 'y) (append (list " + R + ")))"},
+		{"thread-last/later-step-3", "(thread-last n (identity) (list " + R + " 'x))"},
+		{"thread-last/later-step-4", "(thread-last n (+ 0) (list 'a " + R + " 'b))"},
+		{"thread-last/later-step-5", "(thread-last n (+ 0) (list 'a " + R + " 'b 'c))"},
+		{"thread-last/later-step-6", "(thread-last n (+ 0) (list 'a 'b " + R + " 'c 'd))"},
+		{"thread-last/third-step-3", "(thread-last n (+ 0) (* 1) (list " + R + " 'x))"},
+		{"thread-first/later-step-3", "(thread-first n (identity) (list " + R + " 'x))"},
+		{"thread-first/later-step-5", "(thread-first n (+ 0) (list 'a " + R + " 'b 'c))"},
+		{"thread-first/third-step-3", "(thread-first n (+ 0) (* 1) (list " + R + " 'x))"},
+		{"thread-first/2", "(thread-first n (list " + R + "))"},
+		{"thread-first/3", "(thread-first n (list " + R + " 'x))"},
+		{"thread-first/4", "(thread-first n (list 'x " + R + " 'y))"},
+		{"thread-first/two-steps", "(thread-first n (list " + R + " 'x) (cons 'h))"},
+		{"let", "(let ([a n] [b " + R + "] [c n]) (list a b c))"},
+		{"let*", "(let* ([a n] [b " + R + "] [c (list a n)]) (list a b c))"},
+		{"flet", "(flet ([g (x) (list x n)]) (list (g " + R + ") (g n)))"},
+		{"labels", "(labels ([g (x) (list x n)]) (list (g " + R + ") (g n)))"},
+		{"lambda-call", "((lambda (a b c) (list a b c)) n " + R + " n)"},
+		{"funcall", "(funcall (lambda (a b c) (list a b c)) n " + R + " n)"},
+		{"apply", "(apply list n " + R + " (list n))"},
+		{"list", "(list n " + R + " n)"},
+		{"cond", "(cond ((nil? " + R + ") 'never) ((= n 1) (list 'one n)) (else (list 'more n)))"},
+		{"and-or", "(or (and " + R + " false) (list n))"},
+		{"dotimes", "(let ([acc '()]) (dotimes (i n) (set! acc (cons (list i " + R + " i) acc))) acc)"},
+		{"quasiquote", "(quasiquote (n (unquote n) (unquote " + R + ") (unquote-splicing (list n)) n))"},
+		{"handler-bind", "(handler-bind ([condition (lambda (c &rest d) (list 'handled n d))]) (list n " + R + " (if (= n 2) (error 'boom n) n)))"},
+		{"map", "(map 'list (lambda (x) (list x n)) (list n " + R + "))"},
+		{"foldl", "(foldl (lambda (acc x) (cons (list x n) acc)) '() (list n " + R + "))"},
+		{"assert", "(progn (assert (list " + R + ") \"m {}\" n) n)"},
+		{"format-string", "(format-string \"{} {} {}\" n " + R + " n)"},
+		{"user-macro", "(my-pair n " + R + ")"},
+		{"set!", "(let ([v n]) (set! v (list v " + R + " v)) v)"},
+		{"if", "(if " + R + " (list n) (list 'no n))"},
+		{"progn", "(progn n " + R + " (list n))"},
+	}
+	n := 0
+	for _, f := range forms {
+		for depth := 0; depth <= 3; depth++ {
+			src := fmt.Sprintf("(defmacro my-pair (a b) (quasiquote (list (unquote a) (unquote b) (unquote a))))\n(defun f (n) (if (= n 0) 'base %s))\n(list (f %d) (f %d))", f.src, depth, depth)
+			check(r, "T-reenter", src)
+			n++
+		}
+	}
+	r.Bound("T-reenter_programs", n)
+	r.AddStates(int64(len(forms)))
+}
